@@ -617,7 +617,10 @@ class MyPyAstVisitor:
                                     types.add(type_)
                     elif hasattr(return_stmt.expr, "node") and getattr(return_stmt.expr.node, "is_self", False):
                         # The result type is an instance of the parent class
-                        expr_type = return_stmt.expr.node.type.type
+                        expr_type = getattr(return_stmt.expr.node.type, "type", None)
+                        if expr_type is None:
+                            # "self" is annotated with a type variable, so the class of the instance isn't known here
+                            continue
                         types.add(sds_types.NamedType(name=expr_type.name, qname=expr_type.fullname))
                     else:
                         try:
